@@ -46,7 +46,10 @@ fn check_snapshot(w: &World, t: &Taken, when: &str, st: &mut CaseStats) -> Resul
             Ok(b) => b,
             Err(e) => fail!("c13/encode-refused", "{}: encode_state_from_snapshot on a skip_gc document failed: {}", when, e),
         };
-        let f = Replica::new(Cfg { client: 7300, utf16: false, skip_gc: true, cleanup: false });
+      // restored into a passive document and into one with the library's defaults (garbage
+      // collection and automatic format clean-up on)
+      for default_cfg in [false, true] {
+        let f = Replica::new(Cfg { client: 7300, utf16: false, skip_gc: !default_cfg, cleanup: default_cfg });
         if let Err(e) = f.apply(&bytes, v2) {
             fail!(
                 "c13/restore-undecodable",
@@ -70,6 +73,7 @@ fn check_snapshot(w: &World, t: &Taken, when: &str, st: &mut CaseStats) -> Resul
             );
         }
         st.hit("restores_checked");
+      }
     }
     Ok(())
 }
